@@ -15,6 +15,7 @@ import PotasscoVerif.Drv.ValueStore
 import PotasscoVerif.Drv.Options
 import PotasscoVerif.Drv.OptAssign
 import PotasscoVerif.Drv.OptFormat
+import PotasscoVerif.Drv.Text
 open PotasscoVerif.Drv
 
 def dispatch (line : String) : String :=
@@ -37,6 +38,7 @@ def dispatch (line : String) : String :=
   | "op" :: args => runOP args
   | "oa" :: args => runOA args
   | "of" :: args => runOF args
+  | "tr" :: args => runTR args
   | _ => "bad-component"
 
 partial def loop (h : IO.FS.Stream) (out : IO.FS.Stream) : IO Unit := do
